@@ -99,16 +99,28 @@ def handleResume (toks : List String) : Option String := do
   let total := e1.trace.length
   let ptsS := (kv toks "pts").getD "all"
   let pts ← if ptsS = "all" then some (List.range (total + 1)) else parseNatList? ptsS
+  -- run 2 either as one `simulate()` or as `simulate(0)`, …, `simulate(n-1)` followed by `simulate()`
+  let via := (kv toks "via").getD "all"
+  let doRun2 (d : Disk Res Nat) : RunEnd Res Nat × Disk Res Nat :=
+    if via = "singles" then
+      let s := simSinglesC cfg2 (List.range n2) d ⟨0, clk2⟩ outs2
+      let ds := d.applyAll s.trace
+      match s.status with
+      | some _ => (s, ds)
+      | none =>
+        let e := simC cfg2 ds s.clock s.rest
+        (⟨s.trace ++ e.trace, e.results, e.reps, e.rest, e.clock, e.status⟩, ds.applyAll e.trace)
+    else
+      let e := simC cfg2 d ⟨0, clk2⟩ outs2
+      (e, d.applyAll e.trace)
   let one (m : Nat) : String :=
     let pre := e1.trace.take m
     let d1 := crashDisk Disk.empty e1.trace m
-    let e2 := simC cfg2 d1 ⟨0, clk2⟩ outs2
-    let d2 := d1.applyAll e2.trace
+    let (e2, d2) := doRun2 d1
     let run2 := s!"st={showStatus e2.status} log={showList toString (callLog e2.trace)} reps={showList toString e2.reps} res={showList showStored e2.results "_"} disk={showDisk nshow d2}"
     -- the same crash point as a POWER LOSS: every file cut to its durable part, then the restart
     let p1 := (powerLossDisk PDisk.empty e1.trace m).view
-    let f2 := simC cfg2 p1 ⟨0, clk2⟩ outs2
-    let q2 := p1.applyAll f2.trace
+    let (f2, q2) := doRun2 p1
     let prun2 := s!"st={showStatus f2.status} log={showList toString (callLog f2.trace)} reps={showList toString f2.reps} res={showList showStored f2.results "_"} disk={showDisk nshow q2}"
     s!"m={m} calls1={(callLog pre).length} crash={showDisk nshow d1} {run2} pcrash={showDisk nshow p1} prun2={if prun2 = run2 then "same" else prun2.replace " " "~"}"
   some (s!"N={total} st1={showStatus e1.status} reps1={showList toString e1.reps} kinds={showList evKind e1.trace} ; " ++ " ; ".intercalate (pts.map one))
